@@ -18,6 +18,7 @@ static TR_TLS FILE *tr_f;
 static TR_TLS int tr_first;
 static TR_TLS unsigned long tr_count;
 
+static void tr_died(int sig);
 static inline void tr_open(const char *path) {
     tr_f = fopen(path, "w");
     if (!tr_f) {
@@ -26,12 +27,41 @@ static inline void tr_open(const char *path) {
     }
     static char buf[1 << 20];
     setvbuf(tr_f, buf, _IOFBF, sizeof(buf));
+#ifdef VERIF_GUARD_H
+    if (!g_late_crash) {
+        g_late_crash = tr_died;
+    }
+#endif
 }
 static inline void tr_close(void) {
     if (tr_f) {
         fclose(tr_f);
     }
     tr_f = NULL;
+}
+/* The process is dying OUTSIDE an observed library call: glibc aborting in
+ * the harness's own malloc()/free() because an earlier library call
+ * corrupted the heap, or an assertion / crash inside a call the driver makes
+ * unguarded.  The trace must survive and say so: a last "Died" event, which is
+ * an action of no trace specification (tools/vlib.py validate() reports it as
+ * the line the trace is rejected at). */
+#include <signal.h>
+#include <unistd.h>
+static void tr_died(int sig) {
+    if (tr_f) {
+        fprintf(tr_f, "\n{\"e\":\"Died\",\"sig\":%d}\n", sig);
+        fclose(tr_f);
+        tr_f = NULL;
+    }
+    _exit(0);
+}
+/* drivers without guard.h */
+static inline void tr_install_died(void) {
+    signal(SIGABRT, tr_died);
+    signal(SIGSEGV, tr_died);
+    signal(SIGBUS, tr_died);
+    signal(SIGFPE, tr_died);
+    signal(SIGILL, tr_died);
 }
 static inline void ev_begin(const char *kind) {
     fprintf(tr_f, "{\"e\":\"%s\"", kind);
